@@ -1,5 +1,104 @@
 package main
 
-import "verif/vf"
+import (
+	"fmt"
+	"sort"
+	"strings"
 
-func partC(c *vf.Ctx) {}
+	"golang.org/x/crypto/acme/autocert"
+	"verif/schedx"
+	"verif/vf"
+)
+
+// ---- (c) concurrent GetCertificate for one new name, all interleavings within the bound ----
+
+const domainC = "new.example.org"
+
+func checkC(sc autocert.VerifC51Scenario) func(obs any) (string, string) {
+	return func(obs any) (string, string) {
+		r, _ := obs.(*autocert.VerifC51Result)
+		if r == nil {
+			return "", ""
+		}
+		var ds []string
+		for d := range r.NewOrders {
+			ds = append(ds, d)
+		}
+		sort.Strings(ds)
+		for _, d := range ds {
+			if d != domainC {
+				return "concurrent GetCertificate: the CA received an order for a different name", fmt.Sprintf("%q: %d", d, r.NewOrders[d])
+			}
+			if r.NewOrders[d] > 1 {
+				return "concurrent GetCertificate for one new name starts more than one issuance (new-order requests > 1)", fmt.Sprintf("new-orders=%d issued=%d callers=%d", r.NewOrders[d], r.Issued, sc.Callers)
+			}
+		}
+		if r.Issued > 1 {
+			return "concurrent GetCertificate for one new name starts more than one issuance (certificates issued > 1)", fmt.Sprint(r.Issued)
+		}
+		for i, e := range r.Errors {
+			if e != "" {
+				return "concurrent GetCertificate: a caller gets an error although the CA issues the certificate", fmt.Sprintf("caller %d: %s; CA rejected: %v", i, e, r.CABad)
+			}
+		}
+		if len(r.Problems) > 0 {
+			return "concurrent GetCertificate: a caller gets a certificate that is not valid for the name / key", strings.Join(r.Problems, "; ")
+		}
+		if r.DistinctCerts != 1 {
+			return "concurrent GetCertificate: callers get different certificates", fmt.Sprint(r.DistinctCerts)
+		}
+		if !r.IssuedByCA {
+			return "concurrent GetCertificate: a returned certificate was not issued by the CA", ""
+		}
+		return "", ""
+	}
+}
+
+func outcomeC(obs any) string {
+	r, _ := obs.(*autocert.VerifC51Result)
+	if r == nil {
+		return "<nil>"
+	}
+	ne := 0
+	for _, e := range r.Errors {
+		if e != "" {
+			ne++
+		}
+	}
+	return fmt.Sprintf("orders=%d accounts=%d issued=%d errors=%d certs=%d requests=%d puts=%d timers=%d", r.NewOrders[domainC], r.Accounts, r.Issued, ne, r.DistinctCerts, r.Requests, len(r.CachePuts), r.RenewalTimers)
+}
+
+func partC(c *vf.Ctx) {
+	bound := 2
+	type cfg struct {
+		callers              int
+		cache, pol           bool
+		bound, boundThorough int
+	}
+	cfgs := []cfg{
+		{2, false, false, 3, 4},
+		{2, true, true, 3, 4},
+		{3, false, true, 2, 3},
+		{3, true, false, 2, 3},
+	}
+	var scs []schedx.Scenario
+	for _, k := range cfgs {
+		b := k.bound
+		if c.Thorough {
+			b = k.boundThorough
+		}
+		if b > bound {
+			bound = b
+		}
+		sc := autocert.VerifC51Scenario{Callers: k.callers, WithCache: k.cache, Policy: k.pol, Domain: domainC}
+		scs = append(scs, schedx.Scenario{
+			Name:    fmt.Sprintf("c: %d callers cache=%v policy=%v bound=%d", k.callers, k.cache, k.pol, b),
+			Bound:   b,
+			Body:    func() any { return autocert.VerifC51Concurrent(sc) },
+			Check:   checkC(sc),
+			Outcome: outcomeC,
+		})
+	}
+	c.Assume("(c): package acme/autocert is instrumented (every mutex, RWMutex and go statement is a scheduling point); package acme and the fake CA run atomically between scheduling points; renewal timers (time.AfterFunc, >= 59 days) and context deadlines (5 min) are real-time timers that never fire during an execution; the tls-alpn-01 challenge is accepted by the fake CA without connecting back")
+	schedx.Explore(c, scs)
+}
